@@ -63,6 +63,23 @@ def scan(ctx, rule, entries, in_scope, table, key_prefix_filter=None, extra_disc
     prog, cg = ctx.prog(), ctx.cg()
     reach = cg.reach(entries, skip_kinds=("generic",), stop=stops)
     bodies = sorted(k for k in reach if in_scope(k) and k not in stops)
+    # value ranges of header fields guaranteed by the decoder that is their only constructor (re-verified now)
+    panics.FIELD_INV.clear()
+    inv_notes = []
+    try:
+        with open(os.path.join(os.path.dirname(os.path.abspath(__file__)), "..", "tables", "field_invariants.json")) as fh:
+            invs = json.load(fh)
+    except (OSError, ValueError):
+        invs = []
+    for e in invs:
+        if isinstance(e, dict) and "adt" in e:
+            ok1, why1 = decoder_bound(prog, e["guard"])
+            okc = _only_constructor(prog, e["guard"]["fn"], e["guard"]["adt"], e.get("also_built_in", []))
+            if ok1 and okc:
+                a = prog.adt(e["adt"])
+                panics.FIELD_INV[(a["key"], e["field"])] = tuple(e["range"])
+            inv_notes.append("%s.%s in %s: %s" % (e["adt"].rsplit("::", 1)[-1], e["field"], e["range"], "holds (%s)" % why1[:80] if ok1 and okc else "NOT established (%s)" % (why1 if not ok1 else "other constructors")))
+    ctx.extra["field_invariants"] = inv_notes
     # closed world over the workspace: a parameter's interval is the join over all workspace call sites
     piv = panics.param_intervals(prog, cg, list(prog.bodies), [k for k in prog.bodies if not cg.rev.get(k)] + list(entries))
     classes = table.get("_classes", [])
@@ -438,3 +455,15 @@ def S_consts(t, out):
         for x in t[1:]:
             if isinstance(x, tuple):
                 S_consts(x, out)
+
+
+
+def _only_constructor(prog, fn, adt, also):
+    fb = prog.one(fn) if "::{impl" not in fn else prog.body(fn)
+    for b2 in prog.bodies.values():
+        if b2.key != fb.key and not (b2.derived and b2.impl_trait == "core::clone::Clone") and K.aggregates(b2, adt):
+            if not any(b2.key.endswith(x) for x in also):
+                return False
+            if any(F.callee_key(t2) == b2.key for b3 in prog.bodies.values() for _bb, t2 in K.calls(b3)):
+                return False
+    return True
